@@ -531,8 +531,8 @@ func ruleInexactThroughDecision(w *World, r *RuleResult) {
 					switch {
 					case bits&overflow != 0:
 						r.ok(key, w.instrPos(site), "overflow to infinity: Inexact by definition, no rounding decision involved", false)
-					case inexactByDefinition[name] != "":
-						r.ok(key, w.instrPos(site), "tabled: "+inexactByDefinition[name], false)
+					case w.inexactByDef(f) != "":
+						r.ok(key, w.instrPos(site), "tabled: "+w.inexactByDef(f), false)
 					default:
 						before := seenBefore(site, isDecision)
 						after, _ := mustPassFrom(site, isDecision, func(rt *ssa.Return) bool { return w.isErrorReturn(rt) })
@@ -549,4 +549,17 @@ func ruleInexactThroughDecision(w *World, r *RuleResult) {
 			}
 		}
 	}
+}
+
+// inexactByDef: the table entry of f, or of the tabled function f is a private helper of.
+func (w *World) inexactByDef(f *ssa.Function) string {
+	var keys []string
+	for k := range inexactByDefinition {
+		keys = append(keys, k)
+	}
+	sort.Strings(keys)
+	if k := w.ownerIn(f, keys); k != "" {
+		return inexactByDefinition[k]
+	}
+	return ""
 }
